@@ -111,7 +111,8 @@ func c18BuildTo(f *irFunc, imp types.Importer, seed int64, mkWriter func(*bytes.
 		name := fmt.Sprintf("K%d", i)
 		if i == 0 {
 			defs.New(func(cb *gogen.CodeBuilder) int {
-				cb.Val(cb.Scope().Lookup("iota")).Val(off).BinaryOp(token.MUL)
+				_, iota := cb.Scope().LookupParent("iota", token.NoPos)
+				cb.Val(iota).Val(off).BinaryOp(token.MUL)
 				return 1
 			}, 0, token.NoPos, nil, name)
 		} else {
@@ -140,6 +141,9 @@ func c18Child(a *runArgs) error {
 	if a.Tier == "thorough" {
 		nProg, rounds, par = 120, 12, 16
 		limit = 40 * time.Minute
+	}
+	if v := os.Getenv("VERIF_C18_ROUNDS"); v != "" { // development aid: fewer cold rounds
+		fmt.Sscan(v, &rounds)
 	}
 	time.AfterFunc(limit, func() { fmt.Println("RESULT timeout"); os.Exit(3) }) // never outlive the check
 	r := rand.New(rand.NewSource(a.Seed))
@@ -191,6 +195,12 @@ func c18Child(a *runArgs) error {
 	imp := newImp()
 	for i := range progs {
 		base[i] = build(i, imp)
+		if strings.HasPrefix(base[i], "FAULT") || !strings.Contains(base[i], "// const K0 = ") {
+			// the sequential build itself failed: nothing can be compared (a harness defect or a change
+			// of the builder that breaks plain sequential use; never a silent pass)
+			fmt.Printf("RESULT harness-fault program %d: %.300s\n", i, base[i])
+			os.Exit(4)
+		}
 	}
 	mismatches, builds := 0, 0
 	// controlled interleavings: goroutine A is suspended inside a callback into client code (the k-th
@@ -226,6 +236,9 @@ func c18Child(a *runArgs) error {
 			}
 			if fault != "" {
 				outA = "FAULT: " + fault
+			}
+			if os.Getenv("VERIF_C18_DEBUG") != "" {
+				fmt.Printf("DEBUG pair %d: hook reached=%v lenA=%d lenB=%d %q\n", k, outB != "", len(outA), len(base[j]), outA[:min(len(outA), 100)])
 			}
 			if outB == "" { // the hook was never reached (no Write / no Import): run B now
 				startB <- struct{}{}
